@@ -44,7 +44,8 @@ LEVEL_TEXT = ("Machine-checked for the tree as it is now (all repairs found by t
               "classification regenerated from XPath::getTargetData and the routing regenerated from "
               "Stylesheet::addTemplate serve every node kind a last step can match, and KeyTable::KeyTable (facts "
               "regenerated from KeyTable.cpp) offers every node and attribute to every key pattern "
-              "(target_data_complete, keytable_visits_complete); absolute patterns match relative to whatever root the "
+              "(target_data_complete, keytable_visits_complete); the attribute name tests reject raw namespace-declaration "
+              "attributes (attribute_tests_reject_namespace_declarations); absolute patterns match relative to whatever root the "
               "node's tree has, document or document fragment (absolute_patterns_any_root, root node types regenerated "
               "from the source; document() loads, result tree fragments and nested fragments observed through "
               "stylesheets, Xerces-wrapped sources through the API harness). For the code as found the statement was false: five *_counterexample theorems, the "
@@ -89,6 +90,7 @@ THEOREMS = [
     "XalanModel.Props.C09.keytable_visits_complete",
     "XalanModel.Props.C09.number_valued_predicate_is_positional",
     "XalanModel.Props.C09.absolute_patterns_any_root",
+    "XalanModel.Props.C09.attribute_tests_reject_namespace_declarations",
 ]
 
 
@@ -133,15 +135,19 @@ CORPUS = [
 
 # ------------------------------------------------------------------------------------------------ running
 
+NS_FIELD = __import__("re").compile(r" ns=\d+ ")
+
+
 def parse_reply(line):
     """'pat <text> codes=.. m=.. s=..' -> dict or None on ERR/garbage"""
     if line is None or not line.startswith("pat "):
         return None
     f = line.split(" ")
-    if (len(f) < 7 or not f[-1].startswith("s=") or not f[-2].startswith("m=") or not f[-3].startswith("alts=")
-            or not f[-4].startswith("amb=") or not f[-5].startswith("codes=")):
+    if (len(f) < 8 or not f[-1].startswith("s=") or not f[-2].startswith("m=") or not f[-3].startswith("ns=")
+            or not f[-4].startswith("alts=") or not f[-5].startswith("amb=") or not f[-6].startswith("codes=")):
         return None
-    return dict(text=" ".join(f[1:-5]), codes=f[-5][6:], amb=f[-4][4:], alts=f[-3][5:].split(","), m=f[-2][2:], s=f[-1][2:])
+    return dict(text=" ".join(f[1:-6]), codes=f[-6][6:], amb=f[-5][4:], alts=f[-4][5:].split(","), ns=f[-3][3:],
+                m=f[-2][2:], s=f[-1][2:])
 
 
 def violations(rep):
@@ -160,6 +166,9 @@ def violations(rep):
             first = next((a[i] for a in alts[:-1] if i < len(a) and a[i] != "0"), "0")
             if first != m or (i < len(alts[-1]) and alts[-1][i] != "0"):
                 out.append((i, "alternative"))
+    # raw namespace-declaration attributes: matched iff selected (attribute name tests reject them on both sides)
+    if rep.get("ns", "0") != "0":
+        out.append((-1, "nsdecl"))
     # the score must not depend on the caller's context node list (all nodes vs the node alone)
     for i, a in enumerate(rep.get("amb", "")):
         if a != "0":
@@ -312,7 +321,7 @@ def process(ctx, harness, model, cases, work, tag, ncorpus=0):
             ctx.hist["nontrivial"] = ctx.hist.get("nontrivial", 0) + 1
         kcls = "class:proved(match_iff_select_partial)" if in_class(P) else "class:outside"
         ctx.hist[kcls] = ctx.hist.get(kcls, 0) + 1
-        if in_class(P) and violations(rep):
+        if in_class(P) and any(dr != "nsdecl" for _, dr in violations(rep)):
             ctx.extra.setdefault("violations_inside_proved_class", []).append(dict(pattern=text, doc=g.xml_of(doc)))
         if in_sound_class(P):
             ctx.hist["class:no-spurious-proved(match_implies_select_partial)"] = \
@@ -323,7 +332,9 @@ def process(ctx, harness, model, cases, work, tag, ncorpus=0):
         REPLIES.setdefault(tag, {}).setdefault(ci, [None] * len(pats))[pi] = rep
         for dr in sorted(set(dr for _, dr in violations(rep))):
             bad.append(dict(doc=doc, P=P, dir=dr, rep=rep))
-        if iv != mv:
+        # the model has no raw namespace-declaration attributes: a non-zero `ns` is a property violation of the
+        # implementation (reported above as `nsdecl …`), not a disagreement with the model
+        if NS_FIELD.sub(" ns=0 ", iv) != mv:
             disagree.append(dict(doc=doc, P=P, impl=iv, model=mv, what="reply"))
     return disagree, bad
 
@@ -664,7 +675,7 @@ def idkey_stream(ctx, harness, model, work, ndocs, npat):
             continue
         rep = parse_reply(iv)
         ctx.case(nontrivial_key=("idkey", mt[2], g.xml_of(mt[1])) if rep and set(rep["m"]) != {"0"} else None, cls="idkey")
-        if rep is None or iv != mv:
+        if rep is None or NS_FIELD.sub(" ns=0 ", iv) != mv:
             dis.append(dict(pattern=mt[2], doc=g.xml_with_dtd(mt[1]), impl=iv, model=mv))
             continue
         nmatch += set(rep["m"]) != {"0"}
@@ -723,10 +734,15 @@ def consumer_stylesheet(pat, with_key, helper_key):
              '<xsl:variable name="c"><xsl:number level="single" count="%s"/></xsl:variable>'
              '<xsl:value-of select="number(string-length($c) &gt; 0)"/>'
              '<xsl:text>&#10;</xsl:text></xsl:template>' % (e, e, e))
+    # after the nodes of a tree: how many nodes key('k','1') holds for that tree — it must hold nothing besides the
+    # nodes listed (e.g. no raw namespace-declaration attributes, which no expression selects)
+    total = ('<xsl:for-each select="$T"><xsl:value-of select="$tag"/><xsl:text> # </xsl:text>'
+             + ('<xsl:value-of select="count(key(\'k\',\'1\'))"/>' if with_key else '<xsl:text>-</xsl:text>') +
+             '<xsl:text>&#10;</xsl:text></xsl:for-each>')
     o.append('<xsl:template name="tree"><xsl:param name="T"/><xsl:param name="tag"/>'
              '<xsl:for-each select="$T"><xsl:call-template name="row"><xsl:with-param name="tag" select="$tag"/></xsl:call-template></xsl:for-each>'
              '<xsl:for-each select="$T//node() | $T//@*"><xsl:call-template name="row"><xsl:with-param name="tag" select="$tag"/>'
-             '</xsl:call-template></xsl:for-each></xsl:template>')
+             '</xsl:call-template></xsl:for-each>' + total + '</xsl:template>')
     o.append('<xsl:template match="/">' + "".join(
         '<xsl:call-template name="tree"><xsl:with-param name="T" select="%s"/><xsl:with-param name="tag" select="\'%s\'"/>'
         '</xsl:call-template>' % (sel, tag) for tag, sel, _ in TREE_KINDS) + '</xsl:template>')
@@ -779,6 +795,8 @@ def consumer_phase(ctx, cases, work, ndocs):
             f.write(consumer_stylesheet(t, with_key, helper))
         rc, out = common.sh([cli, xmlf, xslf], timeout=120)
         lines = [l for l in out.split("\n") if l]
+        totals = dict((l[0], l[4:]) for l in lines if l[1:4] == " # ")
+        lines = [l for l in lines if l[1:4] != " # "]
         ok = rc == 0 and len(lines) == nn * len(TREE_KINDS) and all(len(l) == 8 and l[1] == " " and l[3] == " " for l in lines)
         if not ok:
             bad.append(dict(site="consumer cli", pattern=t, doc=xml, what="unexpected CLI output rc=%d: %s" % (rc, out[-300:])))
@@ -789,7 +807,15 @@ def consumer_phase(ctx, cases, work, ndocs):
                 bad.append(dict(site="consumer cli", pattern=t, doc=xml, what="tree %s: node kinds differ from the source: %s" % (tag, blk[:6])))
                 continue
             failed = False
+            if with_key and totals.get(tag, "").isdigit() and int(totals[tag]) != sum(l[4] == "1" for l in blk):
+                bad.append(dict(site="consumer xsl:key extra nodes [%s]" % tname.split(" (")[0].split(",")[0], pattern=t, doc=xml,
+                                what="tree kind %s: key('k','1') holds %s nodes but only %d of the tree's nodes are in it — it "
+                                     "contains nodes no expression selects (namespace-declaration attributes?)"
+                                     % (tname, totals[tag], sum(l[4] == "1" for l in blk))))
+                failed = True
             for i, l in enumerate(blk):
+                if failed:
+                    break
                 kbit, tbit, dbit, nbit = l[4], l[5], l[6], l[7]
                 nchk += 1
                 per_tree[tag] = per_tree.get(tag, 0) + 1
@@ -818,6 +844,73 @@ def consumer_phase(ctx, cases, work, ndocs):
     for b in bad[:20]:
         ctx.fail("%s: %s" % (b["site"], b["pattern"]), "%s on %s: %s" % (b["site"], b["doc"], b["what"]),
                  dict(pattern=b["pattern"], doc=b["doc"], consumer=b["site"]))
+
+
+def multikey_stylesheet(pats):
+    """2–3 xsl:key declarations of the SAME name with overlapping patterns and distinct `use` constants: each
+    membership is compared with its own defining expression (XSLT 12.2: all declarations of a name apply)."""
+    o = [XSL_HEAD]
+    for j, t in enumerate(pats):
+        o.append('<xsl:key name="k" match="%s" use="\'u%d\'"/>' % (xml_escape(t), j))
+    body = ['<xsl:variable name="n" select="."/>'
+            '<xsl:choose><xsl:when test="not(..)">r</xsl:when><xsl:when test="self::*">e</xsl:when>'
+            '<xsl:when test="self::text()">t</xsl:when><xsl:when test="self::comment()">c</xsl:when>'
+            '<xsl:when test="self::processing-instruction()">p</xsl:when><xsl:otherwise>a</xsl:otherwise></xsl:choose>']
+    for j, t in enumerate(pats):
+        e = xml_escape(t)
+        body.append('<xsl:text> </xsl:text><xsl:value-of select="count(key(\'k\',\'u%d\')[generate-id()=generate-id(current())])"/>'
+                    '<xsl:value-of select="number(boolean(ancestor-or-self::node()[count((%s)|$n)=count(%s)]))"/>' % (j, e, e))
+    body.append('<xsl:text>&#10;</xsl:text>')
+    body = "".join(body)
+    o.append('<xsl:template match="/"><xsl:for-each select="/">%s</xsl:for-each>'
+             '<xsl:for-each select="//node() | //@*">%s</xsl:for-each></xsl:template></xsl:stylesheet>' % (body, body))
+    return "".join(o)
+
+
+def multikey_phase(ctx, cases, work, ndocs):
+    cli = os.path.join(common.build_dir("hooks"), "src", "xalanc", "Xalan")
+    rr = Rng(ctx.seed * 48271 + 3)
+    nchk = nboth = 0
+    bad = []
+    njobs = 0
+    for doc, pats in cases[:ndocs]:
+        own = [g.render_pattern(P) for P in pats if not g.render_pattern(P).startswith("/|")]
+        for trio in (["*", "node()", "*[1]"], ["@*", "@x|*", "node()|@*"],
+                     [rr.choice(own or ["*"]), "*|@*|text()", rr.choice(own or ["node()"])]):
+            njobs += 1
+            xml, table = g.xml_of(doc), g.table_of(doc)
+            xmlf = os.path.join(work, "c09_mk.xml")
+            xslf = os.path.join(work, "c09_mk.xsl")
+            with open(xmlf, "w") as f:
+                f.write(xml)
+            with open(xslf, "w") as f:
+                f.write(multikey_stylesheet(trio))
+            rc, out = common.sh([cli, xmlf, xslf], timeout=120)
+            lines = [l for l in out.split("\n") if l]
+            if rc != 0 or len(lines) != len(table):
+                bad.append(dict(site="consumer multi-key cli", pattern=" ; ".join(trio), doc=xml, what="rc=%d %s" % (rc, out[-300:])))
+                continue
+            for i, l in enumerate(lines):
+                f = l.split(" ")[1:]
+                if len(f) != len(trio) or any(len(x) != 2 for x in f):
+                    bad.append(dict(site="consumer multi-key cli", pattern=" ; ".join(trio), doc=xml, what="malformed line %r" % l))
+                    break
+                nchk += len(f)
+                nboth += sum(x[1] == "1" for x in f) >= 2
+                wrong = [j for j, x in enumerate(f) if x[0] != x[1]]
+                if wrong:
+                    j = wrong[0]
+                    bad.append(dict(site="consumer multi-key %s" % ("missed" if f[j][1] == "1" else "spurious"),
+                                    pattern=" ; ".join(trio), doc=xml, node=i,
+                                    what="node %d (%s): declaration %d of key 'k' (match=%s use='u%d'): in key = %s, defining "
+                                         "expression = %s; memberships of the %d same-named declarations: %s"
+                                         % (i, l[0], j, trio[j], j, f[j][0], f[j][1], len(trio), " ".join(f))))
+                    break
+    ctx.extra["consumers_multi_key"] = dict(stylesheets=njobs, membership_checks=nchk,
+                                            nodes_matching_two_or_more_declarations=nboth, violations=len(bad))
+    for b in bad[:10]:
+        ctx.fail("%s: %s" % (b["site"], b["pattern"]), "%s on %s: %s" % (b["site"], b["doc"], b["what"]),
+                 dict(pattern=b["pattern"], doc=b["doc"], multikey=True))
 
 
 def xerces_stream(ctx, harness, cases, work, limit):
@@ -853,6 +946,7 @@ def xerces_stream(ctx, harness, cases, work, limit):
 
     def reorder(rep, order):
         pick = lambda st: "".join(st[i] for i in order)   # noqa: E731
+        # (`ns` is not compared: the Xerces DOM has no implicit xmlns:xml declaration on the document element)
         return (rep["codes"], pick(rep["m"]), pick(rep["s"]), pick(rep["amb"]), [pick(a) for a in rep["alts"]])
 
     n = ndiff = nskip = 0
@@ -922,7 +1016,7 @@ def whitespace_stream(ctx, harness, cases, work, limit):
             a = parse_reply(out[li] if li < len(out) else None)
             b = parse_reply(out[li + 1] if li + 1 < len(out) else None)
             n += 1
-            if a is None or b is None or (a["codes"], a["m"], a["s"], a["amb"], a["alts"]) != (b["codes"], b["m"], b["s"], b["amb"], b["alts"]):
+            if a is None or b is None or (a["codes"], a["m"], a["s"], a["amb"], a["alts"], a["ns"]) != (b["codes"], b["m"], b["s"], b["amb"], b["alts"], b["ns"]):
                 bad.append(dict(pattern=meta[li][0], spaced=meta[li + 1][1], doc=meta[li][2],
                                 plain=out[li] if li < len(out) else None, with_spaces=out[li + 1] if li + 1 < len(out) else None))
     ctx.extra["whitespace_variations"] = dict(pairs=n, differing=len(bad))
@@ -960,6 +1054,7 @@ def run(ctx):
     ctx.translate("c09_keytable")
     ctx.translate("c09_steppredicate")
     ctx.translate("c09_fromroot")
+    ctx.translate("c09_nodetester")
     ctx.lean("XalanModel.Props.C09", THEOREMS, extra_targets=["xm_c09"])
     model = ctx.exe("xm_c09")
     harness = common.build_harness("c09_patterns", ["c09_patterns.cpp"], flavor="hooks")
@@ -1015,6 +1110,7 @@ def run(ctx):
                json.dumps(ctx.extra.get("violations_inside_proved_class", [])[:3]))
     use_sites(ctx, cases, REPLIES.get("main", {}), work, 150 if not ctx.thorough else 1500)
     consumer_phase(ctx, cases, work, 20 if not ctx.thorough else 300)
+    multikey_phase(ctx, cases, work, 40 if not ctx.thorough else 600)
     xerces_stream(ctx, harness, cases, work, 400 if not ctx.thorough else 6000)
     whitespace_stream(ctx, harness, cases, work, 120 if not ctx.thorough else 1500)
     if VARIANT[3]:
@@ -1037,6 +1133,21 @@ def replay(ctx, path):
     if not inp:
         print("replay file names broken obligations only:", [o["name"] for o in d.get("broken_obligations", [])])
         return 1
+    if inp.get("multikey"):
+        xmlf = os.path.join(work, "c09_replay.xml")
+        xslf = os.path.join(work, "c09_replay.xsl")
+        with open(xmlf, "w") as f:
+            f.write(inp["doc"])
+        with open(xslf, "w") as f:
+            f.write(multikey_stylesheet(inp["pattern"].split(" ; ")))
+        cli = os.path.join(common.build_dir("hooks"), "src", "xalanc", "Xalan")
+        rc, out = common.sh([cli, xmlf, xslf], timeout=120)
+        print("same-named xsl:key declarations:", inp["pattern"], " document:", inp["doc"])
+        print("per node: kind, then per declaration <in key('k','u<j>')><defining expression>")
+        print(out)
+        badl = [l for l in out.split("\n") if l and any(len(x) == 2 and x[0] != x[1] for x in l.split(" ")[1:])]
+        print("every declaration indexes what it matches:", "yes" if rc == 0 and not badl else "NO at %s" % badl)
+        return 0 if rc == 0 and not badl else 1
     if "consumer" in inp:
         xmlf = os.path.join(work, "c09_replay.xml")
         xslf = os.path.join(work, "c09_replay.xsl")
@@ -1053,7 +1164,7 @@ def replay(ctx, path):
             f.write(inp["doc"])
         rc, out = common.sh([cli, xmlf, xslf], timeout=120)
         print(out)
-        badl = [l for l in out.split("\n") if l and len(l) == 8 and not (l[4] in ("-", l[6]) and l[5] == l[6])]
+        badl = [l for l in out.split("\n") if l and l[1:4] != " # " and len(l) == 8 and not (l[4] in ("-", l[6]) and l[5] == l[6])]
         print("consumers agree with the definition:", "yes" if rc == 0 and not badl else "NO at %s" % badl)
         return 0 if rc == 0 and not badl else 1
     if "request" not in inp:
